@@ -81,6 +81,12 @@ class GotranCCodePrinter(C99CodePrinter):
 
 class CCodeGenerator(CodeGenerator):
     variable_prefix = "const double "
+    # A local variable with the name of a <math.h> function or constant that the printer emits
+    # would hide it, and the generated unit would not compile
+    reserved_names = CodeGenerator.reserved_names | frozenset(
+        {"fabs", "pow", "fmod", "floor", "sqrt", "exp", "log", "sin", "cos", "tan", "asin", "acos"}
+        | {"atan", "M_PI", "M_E"}
+    )
 
     def __init__(
         self, ode: ODE, format: Format = Format.clang_format, remove_unused: bool = False
